@@ -8,7 +8,12 @@ tie        for every program of a large generated family: RQ JSON of the impleme
            programs and cross-validated against Coq on every program evaluated in Coq.
 oracle     any RQ the resolver emits that fails a clause is reported with the program as replay; the RQ is
            round-tripped through JSON and re-checked; each accepted RQ is fed to the SQL back end (sqlite): a
-           missing-id panic on an RQ that passed rq_wf contradicts wf_implies_lookups_total.
+           missing-id panic on an RQ that passed rq_wf contradicts wf_implies_lookups_total; identifiers are only names:
+           rq_to_sql gives the same SQL under an order-preserving renaming of the ids, and IdGenerator::load refuses ids
+           above usize::MAX / 2 exactly as idgen_load (Model/Lowerer.v) says.
+findings   open: F1 (carried sort not visible), F6 (relation parameter used twice), F7 (excluded column of a sub-pipeline).
+           fixed in /repo and therefore never returned by a classifier: F2 (8f24a64), F3 (7911778), F4 (3b8ac37), F5 (592b6f8),
+           and the plain-aggregate half of F1 (8d54bf7).
 """
 import json
 import os
@@ -25,7 +30,9 @@ TRUSTED = [
     "harness/src/c16.rs (prql_to_pl, pl_to_rq, json::from_rq/to_rq, rq_to_sql) and the python comparison",
     "modelled, not verified: the resolver itself -- that the RQ it emits satisfies rq_wf is validated per program (this stream), not proved; "
     "the Lowerer state machine (Model/Lowerer.v) is a hand-written restatement of semantic/lowering.rs' use of its id generators, "
-    "node_mapping, pipeline buffer and table_buffer; it is tied to the code only through the resulting RQ (no op trace hook)",
+    "node_mapping, pipeline buffer and table_buffer; it is tied to the code through the resulting RQ (two runs are reproduced term for term in "
+    "Props/C16.v); the op trace that hook 120eb8c `lowerer-op-trace` emits is not replayed against the machine yet",
+    "idgen_load (Model/Lowerer.v) is tied to utils/id_gen.rs by the id-load-bounds stream (ids at usize::MAX/2, MAX/2+1, MAX through json::to_rq + rq_to_sql)",
     "the back end's lookups are modelled over the whole query (lookup_cid / lookup_tid); the real AnchorContext fills its maps "
     "incrementally, which is why visibility (strict rq_wf), not only definedness, is what it needs",
 ]
